@@ -567,7 +567,8 @@ def hIoExperiment : Handler := fun j => do
   return { corr := dcorr.isNone && dwf.isNone, spec := dspec.isNone, nontrivial := wf && nGen ≥ 1,
            detail := (dspec.orElse fun _ => dcorr.orElse fun _ => dwf).getD "",
            sig := match dspec with | some d => sigOfDiff "experiment" d | none => "",
-           cls := cls ++ (if wf then "" else " notWFexp") }
+           cls := cls ++ (if wf then "" else " notWFexp") ++
+             (if (fldNat o "staleSrcPhenotypes").toOption.getD 0 > 0 then " staleSrcPhenotype(obs)" else "") }
 
 end GoNeat.Driver.IO
 
